@@ -133,7 +133,7 @@ def run_studio(ctx, seed):
                 return EqualizerTuning(playback_function, extractor, comparator)
 
         from playback.studio.equalizer import CompareExecutionConfig
-        cfg = CompareExecutionConfig(compare_in_dedicated_process=True, compare_process_recycle_rate=3, compare_process_timeout=30) if dedicated else None
+        cfg = CompareExecutionConfig(compare_in_dedicated_process=True, compare_process_recycle_rate=3, compare_process_timeout=900) if dedicated else None
         if explicit:
             ids = [rid for c in cats for rid, _ in saved[c]]
             random.Random(seed + 1).shuffle(ids)
